@@ -30,6 +30,13 @@ type Container struct {
 	serviceErrorHandleFunc ServiceErrorHandleFunction
 	router                 RouteSelector // default is a CurlyRouter (RouterJSR311 is a slower alternative)
 	contentEncodingEnabled bool          // default is false
+	handlers               []muxHandler  // registered using Handle ; needed to rebuild the ServeMux on Remove
+}
+
+// muxHandler is a pattern and its handler as registered on the ServeMux using Handle.
+type muxHandler struct {
+	pattern string
+	handler http.Handler
 }
 
 // NewContainer creates a new Container using a new ServeMux and default router (CurlyRouter)
@@ -165,6 +172,10 @@ func (c *Container) Remove(ws *WebService) error {
 			}
 			newServices = append(newServices, each)
 		}
+	}
+	// keep what was registered using Handle and HandleWithFilter
+	for _, each := range c.handlers {
+		newServeMux.Handle(each.pattern, each.handler)
 	}
 	c.webServices, c.ServeMux, c.isRegisteredOnRoot = newServices, newServeMux, newIsRegisteredOnRoot
 	return nil
@@ -356,7 +367,7 @@ func (c *Container) ServeHTTP(httpWriter http.ResponseWriter, httpRequest *http.
 
 // Handle registers the handler for the given pattern. If a handler already exists for pattern, Handle panics.
 func (c *Container) Handle(pattern string, handler http.Handler) {
-	c.ServeMux.Handle(pattern, http.HandlerFunc(func(httpWriter http.ResponseWriter, httpRequest *http.Request) {
+	wrapped := http.HandlerFunc(func(httpWriter http.ResponseWriter, httpRequest *http.Request) {
 		// Skip, if httpWriter is already an CompressingResponseWriter
 		if _, ok := httpWriter.(*CompressingResponseWriter); ok {
 			handler.ServeHTTP(httpWriter, httpRequest)
@@ -386,7 +397,11 @@ func (c *Container) Handle(pattern string, handler http.Handler) {
 		}
 
 		handler.ServeHTTP(writer, httpRequest)
-	}))
+	})
+	c.webServicesLock.Lock()
+	defer c.webServicesLock.Unlock()
+	c.ServeMux.Handle(pattern, wrapped)
+	c.handlers = append(c.handlers, muxHandler{pattern, wrapped})
 }
 
 // HandleWithFilter registers the handler for the given pattern.
